@@ -480,7 +480,14 @@ def gen_eig_file(rng, nq, nat, wide=False, force_q=None, tight=False):
     """force_q: {q-point index: [three strings]} printed instead of random coordinates; tight: single blanks between the coordinates"""
     np_ = 3 * nat
     lines, expect = [], []
+    # the branch numbers as PRINTED: 1..3N as matdyn numbers them, or — in some files — another numbering (acoustic branches cut:
+    # 4..3N+3, a window 61.., branches listed in another order): the loader returns the printed number, not the position
+    u_num = rng.random()
     for iq in range(nq):
+        if u_num < 0.6: numbers = list(range(1, np_ + 1))
+        elif u_num < 0.75: numbers = list(range(4, np_ + 4))
+        elif u_num < 0.9: numbers = list(range(61, 61 + np_))
+        else: numbers = [int(x) + 1 for x in rng.permutation(np_)]
         q = [dec(rng, -1.0, 1.0, 4) for _ in range(3)]
         if (iq == 0 and rng.random() < 0.6) or rng.random() < 0.1:
             # the Γ point as matdyn prints it (0.0000, sometimes -0.0000); its eigenvectors are printed complex like all others
@@ -491,14 +498,14 @@ def gen_eig_file(rng, nq, nat, wide=False, force_q=None, tight=False):
         modes = []
         for im in range(np_):
             thz = dec(rng, -5.0, 60.0, 6); cm = dec(rng, -150.0, 2000.0, 6)
-            lines.append("     freq (%5d) =%15s [THz] =%15s [cm-1]" % (im + 1, thz, cm))
+            lines.append("     freq (%5d) =%15s [THz] =%15s [cm-1]" % (numbers[im], thz, cm))
             vec = []
             for ia in range(nat):
                 lim = 99.0 if wide else 1.0
                 comps = [dec(rng, -lim, lim, 6) for _ in range(6)]
                 lines.append(fmt_vec_line(["%10s" % t for t in comps]))
                 vec += comps
-            modes.append([im + 1, thz, cm, vec])
+            modes.append([numbers[im], thz, cm, vec])
         lines.append(STARS)
         expect.append([q, modes])
     return {"nq": nq, "np": np_, "text": "\n".join(lines) + "\n", "expect": expect}
